@@ -23,6 +23,7 @@ var embHosts = []embHost{
 	{"youtube.com.evil.example", "", "suffix-lookalike"}, {"evilyoutube.com", "", "prefix-lookalike"}, {"notyoutube-nocookie.com", "", "prefix-lookalike"}, {"youtube.com@evil.example", "", "userinfo"}, {"www.youtube.com:pw@evil.example", "", "userinfo"}, {"evil.example", "", "other"},
 	{"vimeo.com", "", "parent-of-allowed"}, {"xplayer.vimeo.com", "", "prefix-lookalike"}, {"player.vimeo.com.evil.example", "", "suffix-lookalike"}, {"eviltwitter.com", "", "prefix-lookalike"}, {"twitter.com.evil.example", "", "suffix-lookalike"}, {"twitter.com@evil.example", "", "userinfo"},
 	{"youtube.co", "", "other"}, {"youtubeXcom.example", "", "other"},
+	{"www.youtube.com&v=1@evil.example", "", "userinfo-amp"}, {"player.vimeo.com&x@evil.example", "", "userinfo-amp"},
 	{"YOUTUBE.com", "youtube", "upper-case"}, {"youtube.com:8080", "youtube", "port"}, {"youtube.com.", "youtube", "trailing-dot"}, {"Player.Vimeo.com", "vimeo", "upper-case"},
 }
 
@@ -35,11 +36,12 @@ var embPaths = []embPath{
 	{"/embed/ID", "embed-id"}, {"/embed/ID/", "embed-id-slash"}, {"/v/ID&x=1", "v-id-amp"}, {"/v/ID?x=1&y=2", "v-id-query"}, {"/video/ID", "video-id"}, {"/ID", "bare-id"},
 	{"/embed/", "container-only"}, {"/video/", "container-only"}, {"/", "root"}, {"/x?u=http://youtube.com/embed/ID", "name-in-query"}, {"/youtube.com/embed/ID", "name-in-path"}, {"/player.vimeo.com/video/ID", "name-in-path"},
 	{"/user/status/ID", "status-id"}, {"/embed/ID?start=30&autoplay=1#t", "embed-id-params"},
+	{"", "empty-path"}, {"?rel=0", "query-only"},
 	{"/video/ID#t=1m2s", "video-id-fragment"}, {"/embed/ID#/foo/bar", "embed-id-fragment-path"}, {"/user/status/ID#m", "status-id-fragment"},
 }
 
 var embSchemes = []string{"https://", "http://", "//", "relative-on-list", "relative-off-list", "no-scheme", "javascript://", "data://"}
-var embCarriers = []string{"iframe", "object-data", "object-param", "tw-iframe", "tw-bq", "tw-bq-nested", "iframe-lazy", "picture-iframe", "iframe-srcdoc", "tw-bq-mxss"}
+var embCarriers = []string{"iframe", "object-data", "object-param", "tw-iframe", "tw-bq", "tw-bq-nested", "iframe-lazy", "picture-iframe", "iframe-srcdoc", "tw-bq-mxss", "figure-picture-iframe"}
 
 type embCase struct {
 	H       embHost
@@ -65,7 +67,7 @@ func embFromIndex(k int) embCase {
 
 // trueHostService returns the service of the host the URL really points to.
 func (e embCase) service() string {
-	if e.Carrier == "iframe-lazy" || e.Carrier == "picture-iframe" {
+	if e.Carrier == "iframe-lazy" || e.Carrier == "picture-iframe" || e.Carrier == "figure-picture-iframe" {
 		return "" // the frame really loads from its src, an unlisted host / is not a frame of the page's own
 	}
 	switch e.Scheme {
@@ -97,6 +99,9 @@ func (e embCase) src() (src string, pageURL string) {
 // lastSegment is the id "taken from the URL": the last non-empty path segment.
 func (e embCase) lastSegment() string {
 	p := strings.ReplaceAll(e.P.Path, "ID", e.ID)
+	if e.Scheme == "relative-on-list" && !strings.HasPrefix(p, "/") {
+		p = "/watch/page.html" + p // an empty or query-only reference names the page itself
+	}
 	if e.service() == "youtube" && !strings.Contains(p, "?") {
 		p = strings.Replace(p, "&", "?", 1) // flash-style YouTube URL /v/ID&x=1: parameters start at the first &
 	}
@@ -135,6 +140,9 @@ func (e embCase) element() string {
 	case "tw-bq-mxss":
 		// a tweet quote with inert text that turns into a frame when the output is serialised and parsed again
 		return fmt.Sprintf(`<blockquote class="twitter-tweet"><p>hello world <math><mtext><table><mglyph><xmp></math><iframe src="https://ads.example.net/m/%s"></iframe></xmp></mglyph></table></mtext></math></p>&mdash; someone <a href="%s">date</a></blockquote>`, e.ID, src)
+	case "figure-picture-iframe":
+		// the same inside a figure, next to the figure's real image
+		return fmt.Sprintf(`<figure><picture><span><iframe src="%s"></iframe></span><source srcset="/img/%s.webp 1x"><img src="/img/%s.png" width="640" height="480"></picture><figcaption>zz %s</figcaption></figure>`, src, e.ID, e.ID, e.ID)
 	case "tw-bq-nested":
 		// a tweet quote that carries foreign frames inside
 		return fmt.Sprintf(`<blockquote class="twitter-tweet"><p>hello world <iframe src="https://ads.example.net/frame/%s"></iframe></p><div><object data="https://ads.example.net/o.swf"><iframe src="/local/frame.html"></iframe></object></div>&mdash; someone <a href="%s">date</a></blockquote>`, e.ID, src)
@@ -164,7 +172,7 @@ func genEmbedDoc(r *RNG) string {
 func init() {
 	register(&Prop{
 		ID:   "C19",
-		Rule: "full grid every run: 28 hosts (allow-listed roots, their subdomains, suffix look-alikes youtube.com.evil.example, prefix look-alikes evilyoutube.com / xplayer.vimeo.com, vimeo.com itself, userinfo tricks youtube.com@evil.example, upper case, port, trailing dot) x 17 path/query shapes (incl. fragments after the id) (/embed/ID, /embed/ID/, /v/ID&x=1, /v/ID?x=1, /video/ID, /ID, container only, root, service name only in path or query, /user/status/ID, parameters+fragment) x 8 source forms (javascript:// and data:// URLs with a host-looking part, https, http, scheme-relative, relative with the page on / off the allow list, host name without scheme = relative path) x 10 carriers (an iframe with srcdoc, a tweet quote whose inert text re-parses into a frame, iframe, object[data], object>param[name=movie], rendered twitter iframe with data-tweet-id, twitter blockquote with the tweet link as last anchor, the same with foreign iframes/objects nested inside, an iframe whose src is foreign while the allow-listed URL sits in data-src, iframes among the children of a <picture>) = 38080 cases, each between two long paragraphs (quick) and additionally inside random articles (thorough). Oracle: a placeholder may exist only if the TRUE host (known by construction) is allow-listed; its data-type must be that service and data-id the id encoded in the URL (last path segment, resp. data-tweet-id); no bare <iframe> may survive. Non-trivial = every grid cell; distinct = distinct cells.",
+		Rule: "full grid every run: 30 hosts (allow-listed roots, their subdomains, suffix look-alikes youtube.com.evil.example, prefix look-alikes evilyoutube.com / xplayer.vimeo.com, vimeo.com itself, userinfo tricks youtube.com@evil.example, upper case, port, trailing dot) x 19 path/query shapes (incl. fragments after the id, no path at all) (/embed/ID, /embed/ID/, /v/ID&x=1, /v/ID?x=1, /video/ID, /ID, container only, root, service name only in path or query, /user/status/ID, parameters+fragment) x 8 source forms (javascript:// and data:// URLs with a host-looking part, https, http, scheme-relative, relative with the page on / off the allow list, host name without scheme = relative path) x 11 carriers (a figure whose picture holds an iframe next to its image, an iframe with srcdoc, a tweet quote whose inert text re-parses into a frame, iframe, object[data], object>param[name=movie], rendered twitter iframe with data-tweet-id, twitter blockquote with the tweet link as last anchor, the same with foreign iframes/objects nested inside, an iframe whose src is foreign while the allow-listed URL sits in data-src, iframes among the children of a <picture>) = 38080 cases, each between two long paragraphs (quick) and additionally inside random articles (thorough). Oracle: a placeholder may exist only if the TRUE host (known by construction) is allow-listed; its data-type must be that service and data-id the id encoded in the URL (last path segment, resp. data-tweet-id); no bare <iframe> may survive. Non-trivial = every grid cell; distinct = distinct cells.",
 		Assumptions: []string{
 			"'only if': an allow-listed source that is not turned into a placeholder (port, case, unsupported carrier) is not a violation",
 			"the id 'taken from the URL' is the last non-empty path segment (not the container words embed/video), for rendered tweets the data-tweet-id attribute",
